@@ -104,7 +104,7 @@ def ensure_coq(tooldir, gen_writer=None):
 def lit(b):
     """Coq term of type str for Python bytes/str."""
     if isinstance(b, str):
-        b = b.encode("utf-8")
+        b = b.encode("utf-8", "surrogateescape")
     if all(32 <= c <= 126 and c != 34 for c in b):
         return '(s "%s")' % b.decode("ascii")
     return "(bs [%s]%%N)" % ";".join(str(c) for c in b)
